@@ -3538,7 +3538,9 @@ static Token *global_variable(Token *tok, Type *basety, VarAttr *attr) {
       error_tok(ty->name, "redefinition of '%s'", prev->var->name);
 
     Obj *var = new_gvar(get_ident(ty->name), ty);
-    var->is_definition = !attr->is_extern;
+    // A declaration with an initializer is a definition even when it
+    // says extern (C11 6.9.2p1).
+    var->is_definition = !attr->is_extern || equal(tok, "=");
     var->is_static = attr->is_static;
     var->is_tls = attr->is_tls;
     if (attr->align)
